@@ -245,6 +245,14 @@ def run(rep, facts, tier):
             'returns (rest.read(len), rest.start() + len) for the same rest and len' if okn else
             'nulbytestr_peek result is not (rest.read(len), start+len)', nf.name, nf.j['span'])
 
+    # ---------- R2 (continued): the sizes and positions a program passes reach the cursor arithmetic unchanged
+    from .. import casts
+    from .c08 import build_zone, type_of_operand
+    fns = [fn for fn in fx.fns if fn == 'cell::Cell::to_usize' or fn.startswith('bitstr_ext::')]
+    for (fn, frm, to, at, exact, why) in casts.lossy_user_casts(fx, fns, build_zone, type_of_operand):
+        rep.add('C06.R2', 'C06.R2:lossy-cast:%s:%s->%s' % (fn, frm, to), exact, why if exact else
+                why + ' - `18446744073709551616 seek` moves the offset to 0 and `18446744073709551624 uint` reads 8 bits instead of failing', fn, at)
+
     # ---------- R4
     check_open(rep, fx, of)
     check_close(rep, fx)
